@@ -105,6 +105,60 @@ fn subscriber(
     })
 }
 
+/// A control client speaking the protocol: subscribe and unsubscribe go through the real `dispatch_async`
+/// (the unsubscribe as a request or, `notification`, without an id), pushes are read from the connection's
+/// push channel.
+fn subscriber_via_dispatch(
+    hub: SubscriptionHub,
+    log: Log,
+    me: usize,
+    cap: usize,
+    recvs: usize,
+    notification: bool,
+    parked: Rc<RefCell<Vec<(usize, bool, mpsc::Receiver<String>)>>>,
+) -> Task {
+    use srtla_send::config::DynamicConfig;
+    use srtla_send::control::{SubscriptionContext, dispatch_async};
+    Box::pin(async move {
+        let cfg = DynamicConfig::new();
+        let (tx, mut rx) = mpsc::channel::<String>(cap);
+        let mut owned: Vec<String> = Vec::new();
+        let resp = {
+            let mut ctx = SubscriptionContext { hub: &hub, push_tx: tx.clone(), owned_ids: &mut owned };
+            dispatch_async(&cfg, None, None, Some(&mut ctx), r#"{"jsonrpc":"2.0","id":1,"method":"subscribe","params":{"topic":"stats"}}"#).await
+        };
+        let id = resp
+            .map(|r| r.to_json())
+            .and_then(|t| serde_json::from_str::<Value>(&t).ok())
+            .and_then(|v| v["result"]["subscription_id"].as_str().map(|x| x.to_string()))
+            .unwrap_or_default();
+        log.borrow_mut().push(Obs::Subscribed(me, "stats".to_string(), id.clone()));
+        for _ in 0..recvs {
+            log.borrow_mut().push(Obs::RecvWait(me));
+            match rx.recv().await {
+                Some(line) => log.borrow_mut().push(Obs::Recv(me, line)),
+                None => break,
+            }
+        }
+        log.borrow_mut().push(Obs::UnsubInvoked(id.clone()));
+        let line = if notification {
+            format!(r#"{{"jsonrpc":"2.0","method":"unsubscribe","params":{{"subscription_id":"{id}"}}}}"#)
+        } else {
+            format!(r#"{{"jsonrpc":"2.0","id":2,"method":"unsubscribe","params":{{"subscription_id":"{id}"}}}}"#)
+        };
+        {
+            let mut ctx = SubscriptionContext { hub: &hub, push_tx: tx.clone(), owned_ids: &mut owned };
+            let _ = dispatch_async(&cfg, None, None, Some(&mut ctx), &line).await;
+        }
+        log.borrow_mut().push(Obs::UnsubReturned(id.clone(), true));
+        while let Ok(line) = rx.try_recv() {
+            log.borrow_mut().push(Obs::Recv(me, line));
+        }
+        parked.borrow_mut().push((me, true, rx));
+        drop(tx);
+    })
+}
+
 fn publisher(hub: SubscriptionHub, log: Log, topic: &'static str, values: Vec<i64>, then_len: Option<usize>) -> Task {
     Box::pin(async move {
         for v in values {
@@ -171,6 +225,12 @@ fn build(c: Config) -> Built {
             publisher(h.clone(), log.clone(), "stats", vec![1], None),
             publisher(h.clone(), log.clone(), "stats", vec![2], None),
         ],
+        // H10 / H11: a protocol client (subscribe / unsubscribe through the real dispatcher; the unsubscribe as a
+        // request, or as a notification without an id) || publisher
+        10 | 11 => vec![
+            subscriber_via_dispatch(h.clone(), log.clone(), 0, c.cap.max(2), 1, c.h == 11, parked.clone()),
+            publisher(h.clone(), log.clone(), "stats", vec![1, 2, 3], None),
+        ],
         // H9: a frozen subscriber of the *other* topic: its publisher and the stats publisher must still finish
         9 => vec![
             subscriber(h.clone(), log.clone(), 0, "priority.window", c.cap, 0, false, false, true, parked.clone()),
@@ -197,6 +257,7 @@ fn publisher_lists(c: Config) -> Vec<(&'static str, Vec<i64>)> {
         6 => vec![("stats", vec![1, 2, 3]), ("stats", vec![4, 5])],
         8 => vec![("stats", vec![1]), ("stats", vec![2])],
         9 => vec![("priority.window", vec![1, 2, 3]), ("stats", vec![4, 5])],
+        10 | 11 => vec![("stats", vec![1, 2, 3])],
         _ => vec![("stats", vec![1, 2, 3, 4])],
     }
 }
@@ -323,6 +384,7 @@ fn judge(c: Config, log: &[Obs], x: &Execution, hub_len_end: usize) -> Result<St
             6 => vec![vec![1, 2, 3], vec![4, 5]],
             8 => vec![vec![1], vec![2]],
             9 => vec![vec![1, 2, 3], vec![4, 5]],
+            10 | 11 => vec![vec![1, 2, 3]],
             _ => vec![vec![1, 2, 3, 4]],
         };
         publisher_order.extend(lists);
@@ -405,7 +467,10 @@ fn configs(tier: Tier) -> Vec<(Config, usize)> {
     let mut v = Vec::new();
     let b = if tier.is_quick() { 2 } else { 3 };
     for cap in [1usize, 2] {
-        for h in 1..=9u8 {
+        for h in 1..=11u8 {
+            if h >= 10 && cap == 1 {
+                continue; // H10 / H11 use capacity >= 2
+            }
             if h == 8 && cap == 1 {
                 continue; // H8 uses capacity >= 2
             }
@@ -531,6 +596,8 @@ pub fn run(tier: Tier) -> Report {
         "H6": "two subscribers frozen for ever after subscribing || publishers {1,2,3} || {4,5}: every schedule must run to completion",
         "H7": "frozen subscriber || publisher {1,2,3,4} || subscriber that unsubscribes",
         "H8": "subscriber (recv x2) || subscriber (recv x2, unsubscribe) || publisher {1} || publisher {2}",
+        "H10": "protocol client: subscribe and unsubscribe (request) through the real dispatch_async, recv x1 || publisher {1,2,3}",
+        "H11": "the same with the unsubscribe sent as a notification (no id)",
         "H9": "subscriber of priority.window frozen for ever || stats subscriber (recv x1) || publisher priority.window {1,2,3} || publisher stats {4,5}: every schedule must run to completion",
     }));
     rep.set("switch_points", json!("every genuine Pending of tokio's Mutex / mpsc, plus yield points before every lock acquisition, right after every acquisition (lock held), after the id counter fetch_add, between entries of the publish loop (lock held), and after the publish loop released the lock"));
